@@ -12,7 +12,11 @@ THEOREMS = ['YatimlModel.C08.' + t for t in ['C08_process_no_other', 'C08_constr
 RULE = ('generated class models (hierarchies, enums, string-likes, hooks incl. raising savorizers, '
         'raising constructors) x documents derived from the type, single/double mutations (tags, '
         'wrong kinds, duplicate / non-scalar / merge keys), token soup and mutated valid texts; the '
-        'exception class of the real load is observed.  Non-trivial = the load fails.')
+        'exception class of the real load is observed.  Non-trivial = the load fails.'
+        'Directed families: class-key faults (repeated / dashed / odd-named keys with a required'
+        " key missing, explicitly core-tagged scalars PyYAML's constructors refuse), untyped"
+        ' regions, recognisers that pin a value (every scalar kind) on such scalars, the'
+        ' no-argument RecognitionError().')
 ASSUMPTIONS = ['exceptions raised by a custom _yatiml_recognize other than RecognitionError are outside '
                'the property (it lists constructors, string-likes and savorize)']
 
